@@ -149,3 +149,31 @@ def valid_hh(v, a, N, tol=1e-9):
     nxt = max(pr(v[i], a[i]) for i in range(len(v)))
     lst = min((pr(v[i], a[i] - 1) for i in range(len(v)) if a[i] > 0), default=math.inf)
     return nxt <= lst * (1 + tol) or (math.isinf(nxt) and math.isinf(lst))
+
+
+def make_from_params(model, params, extra=None, alpha=1.0):
+    """construct through the documented from_params route (intervals drawn from a Dirichlet) and return
+    (generator, params') where params' carries the intervals the generator actually holds"""
+    import votekit.ballot_generator as bg
+
+    extra = extra or {}
+    cls = getattr(bg, model)
+    names = list(params["bloc_voter_prop"])
+    g = cls.from_params(
+        slate_to_candidates={b: list(params["slate_to_candidates"][b]) for b in names},
+        bloc_voter_prop=dict(params["bloc_voter_prop"]),
+        cohesion_parameters={b: dict(d) for b, d in params["cohesion_parameters"].items()},
+        alphas={b: {s: alpha for s in names} for b in names}, **extra)
+    p2 = dict(params)
+    p2["slate_to_candidates"] = {b: list(params["slate_to_candidates"][b]) for b in names}
+    piv = {}
+    for b in names:
+        piv[b] = {}
+        for s in names:
+            iv = g.pref_intervals_by_bloc[b][s]
+            d = {c: float(v) for c, v in iv.interval.items()}
+            for c in iv.zero_cands:
+                d[c] = 0.0
+            piv[b][s] = d
+    p2["pref_intervals_by_bloc"] = piv
+    return g, p2
